@@ -517,6 +517,7 @@ nodesLoop:
 						ne = " on " + node.Expr.String()
 					}
 					tcase := tc.checkExpr(ex)
+					dupcase := tcase // constant checked for duplicates
 					if tcase.Untyped() {
 						c, err := tc.convert(tcase, ex, texpr.Type)
 						if err != nil {
@@ -529,6 +530,11 @@ nodesLoop:
 							tcase.setValue(texpr.Type)
 						}
 						tcase = &typeInfo{Type: texpr.Type, Constant: c}
+						if texpr.Type.Kind() != reflect.Interface {
+							// With a tag of interface type an untyped constant
+							// keeps its default type: case 1, 1 is a duplicate.
+							dupcase = tcase
+						}
 					} else {
 						if tc.isAssignableTo(tcase, ex, texpr.Type) != nil && tc.isAssignableTo(texpr, ex, tcase.Type) != nil {
 							panic(tc.errorf(cas, "invalid case %s in switch%s (mismatched types %s and %s)", ex, ne, tcase.ShortString(), texpr.ShortString()))
@@ -541,9 +547,10 @@ nodesLoop:
 						}
 						tcase.setValue(nil)
 					}
-					if tcase.IsConstant() && texpr.Type.Kind() != reflect.Bool {
-						// Check for duplicates.
-						value := tc.typedValue(tcase, tcase.Type)
+					if dupcase.IsConstant() && dupcase.Type.Kind() != reflect.Bool {
+						// Check for duplicates: two constants are duplicates
+						// if they have the same type and the same value.
+						value := [2]any{dupcase.Type, tc.typedValue(dupcase, dupcase.Type)}
 						if pos, ok := positionOf[value]; ok {
 							panic(tc.errorf(cas, "duplicate case %v in switch\n\tprevious case at %s", ex, pos))
 						}
